@@ -244,7 +244,7 @@ pub fn oracle_jitter(prop: &str, data: &[u8]) -> Vec<Outcome> {
     match prop {
         "C12" => vec![g("history/0".into(), case, &c12::check)],
         "C16" => vec![g("history/0".into(), c16::HistCase { prog: case.prog, rounds: case.rounds0.unwrap_or(3), ops: hops, fault_at: None }, &c16::check_hist)],
-        _ => vec![g("jitter/0".into(), c14::JitCase { prog: case.prog, rounds0: case.rounds0, ops: case.ops, clone_at: None, first_result: case.first_result, start_pool: None }, &c14::check_jit)],
+        _ => vec![g("jitter/0".into(), c14::JitCase { prog: case.prog, rounds0: case.rounds0, ops: case.ops, clone_at: None, first_result: case.first_result, start_pool: None, first_relation: case.first_relation }, &c14::check_jit)],
     }
 }
 
